@@ -354,6 +354,51 @@ func c17R2(c *Ctx) {
 		}
 	}
 	c.Floor("C17.R2", "successful returns of GetOne", 2, n)
+	// the options object of the call: the local of type (*)SelectOptions, whatever it is called;
+	// it has to be created in the call (&SelectOptions{}, SelectOptions{} or new(SelectOptions))
+	optsName, optsFresh := "", false
+	ast.Inspect(fn.Decl.Body, func(nd ast.Node) bool {
+		var lhs, rhs ast.Expr
+		switch t := nd.(type) {
+		case *ast.AssignStmt:
+			if t.Tok == token.DEFINE && len(t.Lhs) == 1 && len(t.Rhs) == 1 {
+				lhs, rhs = t.Lhs[0], t.Rhs[0]
+			}
+		case *ast.ValueSpec:
+			if len(t.Names) == 1 {
+				lhs = t.Names[0]
+				if len(t.Values) == 1 {
+					rhs = t.Values[0]
+				}
+			}
+		}
+		if lhs == nil || !typeIs(info.TypeOf(lhs), modPath+"/pkg/vswitch", "SelectOptions") {
+			return true
+		}
+		if optsName != "" {
+			optsName, optsFresh = "?", false
+			return true
+		}
+		optsName = exprString(lhs)
+		switch r := ast.Unparen(rhs).(type) {
+		case nil:
+			_, isPtr := info.TypeOf(lhs).(*types.Pointer)
+			optsFresh = !isPtr // var o SelectOptions
+		case *ast.UnaryExpr:
+			_, isLit := r.X.(*ast.CompositeLit)
+			optsFresh = r.Op == token.AND && isLit
+		case *ast.CompositeLit:
+			optsFresh = true
+		case *ast.CallExpr:
+			_, isNew := isBuiltinCall(info, r, "new")
+			optsFresh = isNew
+		}
+		return true
+	})
+	if optsName == "" || optsName == "?" {
+		c.Undec("C17.R3", "selection options of the call", p.Pos(fn.Decl), fn.Key(), "one local of type SelectOptions", "none or several")
+		return
+	}
 	// fallback list: appended only under IgnoreZone, only switches of another zone, obtained from GetByID in the main loop
 	if fb == nil {
 		c.Bad("C17.R3", "fallback list", p.Pos(fn.Decl), fn.Key(), "a []*Switch fallback list", "not found")
@@ -367,7 +412,7 @@ func c17R2(c *Ctx) {
 			if !ok {
 				return true
 			}
-			c.Require("C17.R3", "other-zone candidates are kept only when zone fallback is enabled", fn, as, "selectOptions.IgnoreZone", nil)
+			c.Require("C17.R3", "other-zone candidates are kept only when zone fallback is enabled", fn, as, optsName+".IgnoreZone", nil)
 			// inside the candidate loop
 			in := false
 			for _, k := range pathTo(fn.Decl.Body, as) {
@@ -393,17 +438,7 @@ func c17R2(c *Ctx) {
 		c.Check(mainLoop != nil && fbLoop != nil && mainLoop.End() < fbLoop.Pos(), "C17.R3", "in-zone candidates are preferred over fallback candidates", p.Pos(fn.Decl), fn.Key(), "the fallback loop follows the candidate loop", "order not recognised")
 	}
 	// selection options are per call
-	okOpts := false
-	ast.Inspect(fn.Decl.Body, func(nd ast.Node) bool {
-		if as, ok := nd.(*ast.AssignStmt); ok && as.Tok == token.DEFINE && len(as.Lhs) == 1 && exprString(as.Lhs[0]) == "selectOptions" {
-			if ue, ok := ast.Unparen(as.Rhs[0]).(*ast.UnaryExpr); ok && ue.Op == token.AND {
-				if _, ok := ue.X.(*ast.CompositeLit); ok {
-					okOpts = true
-				}
-			}
-		}
-		return true
-	})
+	okOpts := optsFresh
 	c.Check(okOpts, "C17.R3", "selection options are a fresh value per call", p.Pos(fn.Decl), fn.Key(), "selectOptions := &SelectOptions{}", "options object is not created in the call (state would leak between calls)")
 }
 
